@@ -11,7 +11,7 @@ claim("C02", "TLC model checking of the exported table + trace validation of rea
       "against Trace_SpaceGroup (plus seeded permutations of the operation-list order, the reduced description looked up sorted / without the identity / "
       "reversed and twice from one list, and a group constructed after the caller edited another object's operations). The table is also held against "
       "what its setting labels mean (Settings.tla, invariant TableSettings: origin choice 1/2, H/R, orthorhombic axis permutations, monoclinic unique axis, "
-      "axis cycle and cell choices, as relations between the rows of one number).",
+      "axis cycle and cell choices, as relations between the rows of one number). Every other genuine SHELX description of a setting is looked up as well: all 14 LATT values, reduced by the library and by an independent reference, with validity (LattValid) and meaning (Describes) decided by TLC; and the full list with matrices carrying rounding noise. Beyond the listed statement (reported as EXTENSION-NOTE, never as a verdict): MC_PointGroup holds the point-group table and the point group / crystal system / Laue class reported by every setting against PointGroup.tla.",
       "Trusts TLC and the Symop decoding written in the spec; operation identity is by packed code as reported by the object (C11 checks that coding).")
 
 claim("C11", "TLC trace validation of codec/spelling/shift/apply events + exhaustive MC of the Symop module",
@@ -23,7 +23,7 @@ claim("C11", "TLC trace validation of codec/spelling/shift/apply events + exhaus
       "rows) are judged by the specification's own byte-level reader (SymopText.tla); every read is compared, hashed and printed against the same operation "
       "built from the packed integer and the matrix; 3-vector/homogeneous/Cartesian application (also of operations built from integer matrices, of crystals "
       "switched in place, and after the caller edited the matrix it was handed) is compared with Symop!ApplyRaw. "
-      "The thorough tier enumerates the 34,012,224 packed codes as a prefix bounded by its time budget (evidence states the prefix).",
+      "The thorough tier enumerates the 34,012,224 packed codes as a prefix bounded by its time budget (evidence states the prefix). Homogeneous vectors are also handed over un-normalised (weights 2 and 3, directions with weight 0) and the Cartesian form is taken on cells of special shape (right angles, equal edges, 120 degrees).",
       "Trusts TLC, the grid projection (residual > 1e-9 is rejected as OnGrid) and the decode written in the spec. Spelling grammar = Symop!Spelling.")
 
 claim("C01", "TLC model checking of the unit-cell algorithm against the orbit + trace validation of real Crystal objects",
@@ -45,7 +45,7 @@ claim("C04", "TLC trace validation of real molecular crystals + model checking o
       "cell boundaries) are built; TLC first evaluates the domain guard (every contact of the infinite crystal is an intended bond or clearly non-bonded) "
       "and then validates connectivity edges and cells, count Z' x |G|, partition of the unit-cell atoms, wholeness (each molecule is a lattice translate "
       "of the exact image of its parent, hence isometric and bonded), provenance columns, centre of mass in the cell, coverage by the symmetry-unique "
-      "molecules and the image labels.",
+      "molecules and the image labels. Every in-place switch of the recipes is preceded by a request the object must refuse (a misspelt choice).",
       "Bond thresholds come from covalent radii held by the specification (Molecules!CovRadius100, certified by ThresholdsOK) with a +-0.08 A guard "
       "band; molecule coordinates are projected to the 1/48 grid (residual > 1e-6 rejected); chemistry restricted to trees of 2-5 atoms of "
       "C/N/O/F/H with terminal Cl/Br/I/S, on general positions, every non-bonded contact at least 0.65 A beyond the sum of radii.")
@@ -70,7 +70,7 @@ claim("C16", "TLC trace validation of the bytes written/read by the real XYZ/SDF
       "1-3 atom molecules over a coordinate alphabet covering the format's range. Real molecules (1-200 atoms, every Z in 1..103, with/without perceived bonds, "
       "bond indices >= 100, 1-4 records per file, save/load and string routes, the repository's SDF file) are written by the library; TLC checks the V2000 columns "
       "of every line on the actual bytes, parses the text with the spec's own reader and compares with both the original molecule and the library's reader; XYZ "
-      "spellings certified by the spec's grammar are parsed by the real reader.",
+      "spellings certified by the spec's grammar are parsed by the real reader. Molecules carry title comments (empty, blank, text) and spec-written multi-record files are also stored with CRLF line ends.",
       "Coordinates are decimals built from integers (one digit group finer than the format is accepted either way); float noise allowance 1e-8 only above 8192 for XYZ.")
 claim("C05", "TLC trace validation of rho/weights against the exported interpolation table + MC of the evaluation-context state machine",
       "Promolecule.tla specifies table lookup, linear interpolation, per-atom and per-set density, the kernel's accumulation loop and the stockholder weight as exact "
@@ -84,7 +84,7 @@ claim("C20", "TLC model checking of the Sobol state machine on the exported dire
       "(data-driven: table exported from the tree) checks stratification at every power of two and the (0,m,2)-net property for dimensions 1..40 + seeded others "
       "(quick) / all 1..1000 with m <= 12 (thorough, 4.1M states), and enumerates all ordered pairs of calls over a 72-call alphabet for replay. Sessions of shuffled "
       "single/batch/front-end calls on windows [s, s+k] (s <= 10^6, k <= 256, up to 1000 dims) are validated one TLC step per point: Sobol values must equal the spec's "
-      "integers exactly, all values in [0,1), and an observation register demands the same value for the same (method, seed, dim) by every route and order.",
+      "integers exactly, all values in [0,1), and an observation register demands the same value for the same (method, seed, dim) by every route and order. Sessions include windows across powers of two and across the multiples of 2^16 beyond 2^19, many dimensions (next to the multiples of 128) at large seeds, and both methods asked in turn through the front end.",
       "Korobov values have no exact oracle (range, determinism and route agreement to 2^-60 only); compiled kernels used as found.")
 
 claim("C13", "TLC trace validation of P1/supercell/trigonal re-expressions + model checking of the trigonal basis change",
@@ -93,7 +93,7 @@ claim("C13", "TLC trace validation of P1/supercell/trigonal re-expressions + mod
       "hexagonal and rhombohedral descriptions coincide atom by atom modulo the lattice with counts 3:1, and that H->R->H and R->H->R restore the state. Real crystals "
       "(molecular and atomic, all settings in thorough, cells from parameters / lattice vectors / arbitrarily rotated lattice vectors) go through as_P1, as_P1_supercell, "
       "to_translational_symmetry (sizes to 3x3x3) and choose_trigonal_lattice from either setting and back; TLC checks P1-ness, the supercell Gram matrix, the exact atom "
-      "set modulo the supercell, atom and volume ratios, density, the switched state against SwitchTrigonal, and the round trip.",
+      "set modulo the supercell, atom and volume ratios, density, the switched state against SwitchTrigonal, and the round trip. Other structures (a CIF in an untabulated setting, a POSCAR) are loaded in the same process before the judged calls.",
       "Cells are seen through their integer Gram matrix; coordinates projected to the grid (residual > 1e-6 rejected); density to 1e-6 relative; fresh objects only (staleness is C14).")
 
 claim("C14", "TLC model checking of the memo/mutation state machine + TLC-enumerated histories replayed on real objects and trace-validated",
@@ -103,7 +103,7 @@ claim("C14", "TLC model checking of the memo/mutation state machine + TLC-enumer
       "exhibits the shortest stale history of the design found at the pinned commit. TLC then prints every history up to length 2 over all 14 queries and length 3 over the "
       "8-query core (thorough: 3 / 4); each is replayed on real objects of three structures (built in memory, loaded from CIF, loaded from SHELX) plus random histories "
       "of length 5-12, and Trace_CrystalObject validates every event: the answer equals the answer of a freshly constructed crystal with the same cell, space group and "
-      "asymmetric unit, every answer to the same (query, state) is the same (register), queries leave the state untouched, a switch produces exactly the state the spec computes.",
+      "asymmetric unit, every answer to the same (query, state) is the same (register), queries leave the state untouched, a switch produces exactly the state the spec computes. Requests the object must refuse (misspelt choices; a switch asked of P1 / P3_1) are events of their own (SpecRefused: state unchanged); symmetry_unique_dimers is in the alphabet; ask - change - ask again is replayed for every query.",
       "Answers are compared as digests of canonical projections; exported texts are compared through the structure they load back to; the only state-changing "
       "operation offered by the API in scope is choose_trigonal_lattice.")
 
@@ -113,7 +113,7 @@ claim("C19", "TLC trace validation against an exact half-space intersection comp
       "facet lists, prune and CCW order, fan triangles) on 9 named polyhedra x 5 rational scales x 3 simplex rotations against hand-computed vertex sets and volumes and the "
       "scaling law. Real WulffConstruction objects (named/degenerate shapes, generic centrosymmetric and non-centrosymmetric facet sets of 6-20 facets in quick, up to 60 in "
       "thorough, energies within a factor two) are validated by TLC: vertex set equality, all inequalities, >= 3 facets per vertex, exact facet lists, outward closed mesh "
-      "(raw triangles merged by position and to_trimesh), edge set, exact and float volume, and scaling by a rational factor.",
+      "(raw triangles merged by position and to_trimesh), edge set, exact and float volume, and scaling by a rational factor. The list-of-planes route (from_gmf_and_crystal) runs on 34 settings including A-, C-, F- and I-centred ones.",
       "Vertices are projected to the exact rational vertex set (residual bound 1e-8); needle-like shapes beyond 32 units and vertices closer than 1e-4 are out of domain (guards evaluated by TLC).")
 
 claim("C15", "TLC model checking of the CIF parser state machine + trace validation of the real serialiser/parser on its own bytes",
@@ -122,7 +122,7 @@ claim("C15", "TLC model checking of the CIF parser state machine + trace validat
       "Parse(Ser(d)) = d with the parser actions taken step by step for all small data sets (<= 2 blocks, <= 3 items, <= 3 cells, a 10-value alphabet incl. negative "
       "ints, integer-valued decimals, uncertainty forms, strings with blanks/commas/quotes/double blanks): 616k states quick, ~15M thorough. Seeded random dictionaries, "
       "the repository's CIF files, the dictionaries written by real Crystal objects (Crystal.to_cif_data: the CIF leg of C10 at byte level) and parse_value forms go through the real Cif(d).to_string()/Cif.from_string; TLC checks block names, item names, row alignment, value "
-      "types and values against the original, then runs the spec's own parser on the written bytes and demands agreement with the library's parser.",
+      "types and values against the original, then runs the spec's own parser on the written bytes and demands agreement with the library's parser. Tables include rows of more than 2048 characters, long free text (thorough) and strings that contain a reserved word inside.",
       "Domain guard evaluated by TLC (empty blocks/strings, strings needing nested quotes, number-like strings are out of domain as the statement says); floats shipped as exact digit sequences, loop-cell floats compared to 5e-13 + 1e-15|x|.")
 
 claim("C10", "TLC trace validation of file content and reloaded crystals for all 530 settings x 3 formats + MC of the LATT/SYMM round trip",
@@ -139,7 +139,7 @@ claim("C17", "TLC enumeration of the complete spelling domain from an independen
       "grammar at design level (distinct symbols, unambiguous spellings, rejected strings never coincide with accepted ones, Less is a strict total order with carbon "
       "first) and prints the whole finite domain. Every printed spelling goes through Element[...], from_string and from_label; all integers -200..300 through Element[n], "
       "from_atomic_number and a numpy integer; the library's own name of every Z in three letter cases; radii/mass by four routes; random multisets through sorted() and "
-      "chemical_formula. TLC validates each observation against Element!Lookup / SortSpec / Formula.",
+      "chemical_formula. TLC validates each observation against Element!Lookup / SortSpec / Formula. Spellings include the kind prefixed (a non-letter in front of a symbol names no element); non-integral numbers must be rejected; atomic numbers arrive in every numpy integer type (lookups, comparisons, sorting).",
       "Names and numeric columns are the library's own data (consistency across routes only); 'D' is deliberately hydrogen; quick tier enumerates every third rejected code, thorough all.")
 
 claim("C12", "TLC trace validation of every UnitCell construction route in exact BigInt arithmetic + model checking of the lattice identities",
@@ -148,7 +148,7 @@ claim("C12", "TLC trace validation of every UnitCell construction route in exact
       "formulas = reciprocal metric, the identities behind the lower-triangular direct/inverse matrices, BigInt = plain arithmetic) over all lattices with entries -2..2 up "
       "to symmetry (334k states quick, 4.8M thorough) and prints lattices for replay. Real cells (random, near-degenerate 8..170 degrees, six crystal families, TLC-emitted) go "
       "through UnitCell(vectors), from_lengths_and_angles, triclinic and all seven named constructors in radians and degrees; TLC checks Gram, mutual inverses, aliases, "
-      "reciprocal metric, lengths, angles, volume = determinant, star quantities, to_cartesian, the fractional round trip and route-vs-route agreement.",
+      "reciprocal metric, lengths, angles, volume = determinant, star quantities, to_cartesian, the fractional round trip and route-vs-route agreement. Routes include unit keywords made at run time, cells re-specified after a near twin (7th digit) and a near twin built earlier in the process.",
       "Floats shipped as round(x 2^44) BigInts; slack 2^-30 x (abc/V)^2 computed exactly from G (measured noise <= 3e-15 x (abc/V)^2); guards: lengths 1..100, angles 8..170 degrees.")
 claim("C18", "TLC trace validation with an exact optimality certificate and a rational rotation net + model checking of the post-SVD steps",
       "Kabsch.tla states orthogonality, determinant +1, exact superposition, the first/second-order optimality certificate (R^T H symmetric, tr(M) I - M positive semidefinite "
@@ -156,7 +156,7 @@ claim("C18", "TLC trace validation with an exact optimality certificate and a ra
       "the certificate implies optimality in the net and that the code's post-SVD steps on integer SVDs always give a certified proper rotation (69k states; as-built deviation "
       "without determinant correction named). Real kabsch_rotation_matrix / reorient_points / rmsd_points / Dimer(transform_ab='calculate') run on integer point sets (generic, "
       "planar, collinear; rotated, mirrored, noisy; 3..50 points; TLC-emitted degenerate covariances); TLC checks Orthogonal, Det1, Superposes, both certificate clauses, "
-      "NoBetterInNet (|q|^2 <= 30, ~2200 rotations), Reorient and Rmsd on outputs quantised to 2^-20.",
+      "NoBetterInNet (|q|^2 <= 30, ~2200 rotations), Reorient and Rmsd on outputs quantised to 2^-20. Inputs are also given in other length units (exact powers of two down to 2^-34), reorientation is requested in other spellings (honoured or refused), and dimers are built from two molecules of one asymmetric unit.",
       "Optimality over SO(3) is decided by the exact certificate on the quantised output plus the finite net, with slack tau = 2^-13 (|A|^2+|B|^2)/2; the SVD itself is not modelled.")
 
 claim("C06", "TLC trace validation of real meshes (static clauses + cell-by-cell sweep replay) + model checking of the sweep invariant",
@@ -179,7 +179,7 @@ claim("C09", "TLC-certified poses + relational trace validation of real descript
       "containing a rotation. Radii returned by the public radial solvers must lie in the bounds and satisfy the isovalue equation (2e-3), and probes whose bounds cannot "
       "contain the surface must raise. Molecules and atoms in their crystal: Crystal.molecular_shape_descriptors and "
       "Crystal.atomic_shape_descriptors on different listings of one P1 crystal (cell origin moved, atoms re-ordered, a doubled cell; each listing certified by "
-      "Descriptor!CApplyWord) must give the same set of descriptor rows within 5e-3.",
+      "Descriptor!CApplyWord) must give the same set of descriptor rows within 5e-3. Crystal objects are also used with short radii first; methyl compounds and H2S are listed hydrogens first; a listing on which no surface lies inside the bounds must say so in every listing (then out of domain).",
       "Relational oracle only (the thinnest specification of the twenty, as the design says): the descriptor values themselves are not computed in TLA+; rotation tolerance is "
       "dominated by the discretisation error of the non-band-limited radial function, so sub-percent rotation defects (e.g. the N-slice defect, caught exactly by C08) are below it; "
       "Molecule.atomic_shape_descriptors and the functional-group descriptors of Crystal are not driven; molecules are bonded clusters "
@@ -191,7 +191,7 @@ claim("C07", "TLC trace validation against scipy reference harmonics with exact 
       "L <= 5) checks that both layouts are bijections in kernel order, the transcribed grid rule is sufficient for every L in 0..64, completion is injective/linear/power "
       "preserving, and the as-coded loops equal the declarative operators. Real SHT objects for L in {0..12,16,23,32,47} (thorough 0..64) run event sequences (Load, Sample "
       "from scipy sph_harm_y, Synthesis/Analysis compiled and pure Python, real and complex, Complete, PowerSpectrum, EvalAt, Combine) on dense vectors and every single "
-      "channel; TLC checks each observation (reference synthesis, exact coefficients, route agreement, completion, power, Parseval in BigInt, point evaluation).",
+      "channel; TLC checks each observation (reference synthesis, exact coefficients, route agreement, completion, power, Parseval in BigInt, point evaluation). Grids chosen by the caller (smallest exact grid, odd numbers of latitudes) are driven as well.",
       "Y_lm values are imported from scipy as 2^-40 fixed-point data (not computable in TLA+); slack 2^-30 relative; compiled kernels used as found; L = 0 complex skipped as in the statement.")
 claim("C08", "TLC exact oracle for N invariants / power spectrum / P ordering + relational rotation checks; model checking of the exact rotation subgroup",
       "Invariants.tla computes N2(l), Power(l) and the P-triple selection (number, order, cap) exactly on Gaussian-integer coefficient vectors and defines the exact rotations "
